@@ -669,6 +669,11 @@ class KEval:
             idx = self.index_of(t.slice, env, S, f, guards, loops, depth)
             if isinstance(base, Ref):
                 val = v if isinstance(v, (tuple, Ref, Const)) else self.scalar(v)
+                if isinstance(val, tuple) and idx and idx[-1] is SLICE and op == "=" and all(isinstance(x, (Poly, Ref, Const)) for x in val):
+                    # a row written as a tuple,  A[k, :] = a, b,  is the element stores  A[k, 0] = a; A[k, 1] = b  (one canonical spelling for both)
+                    for i_, x in enumerate(val):
+                        S.stores.append(Store(base.name, base.idx + tuple(idx[:-1]) + (Poly.const(i_),), x if isinstance(x, (Ref, Const)) else self.scalar(x), op, guards + path, loops, node, base.local, f, base.origin))
+                    return
                 S.stores.append(Store(base.name, base.idx + tuple(idx), val, op, guards + path, loops, node, base.local, f, base.origin))
             else:
                 S.notes.append(f"store into untracked base at line {node.lineno}: {unparse(t)[:60]}")
